@@ -55,7 +55,13 @@ def read_number_with_error(s):
 
 
 def judge_format(x, err, s):
-    """None if `s` reads back as x +- err by the usual convention, else a description."""
+    """None if `s` reads back as x +- err by the usual convention, else a description.
+    (Judged in a private high-precision decimal context: the caller's ambient context must not bend the reader.)"""
+    with decimal.localcontext(_CTX):
+        return _judge_format(x, err, s)
+
+
+def _judge_format(x, err, s):
     r = read_number_with_error(s)
     if r is None:
         return "not of the form digits(digits)[e+XX]: %r" % (s,)
